@@ -356,7 +356,22 @@ Definition check_conv (args : list sx) : verdict :=
                        && (sx_eqb model (canon_obs obs) || trace_nondet cfg evs) in
           let mon_ok := match smon_run cfg (smon_init (cf_implicit_tls cfg)) evs with Some _ => true | None => false end in
           let expect := match assoc "expect" args with Some e => e | None => [] end in
-          mkV true (agree && mon_ok) model (conv_oracle cfg be obs expect) []
+          let texts_ok := forallb (fun e => match e with BSmtp _ _ m => forallb (fun c => text_octet_ok c || Ascii.eqb c LF) m
+                                                       | BPlain m => forallb (fun c => text_octet_ok c || Ascii.eqb c LF) m
+                                                       | BNil => true end)
+                                  (be_ns be ++ be_mail be ++ be_rcpt be ++ map dp_ret (be_data be)
+                                   ++ flat_map (fun p => map snd (dp_status p)) (be_data be)) in
+          let '(syn_viol, syn_kf) :=
+            match assoc1 "events" obs with
+            | Some (SL evx) => match map_opt dec_event evx with
+                               | Some oevs => oracle_syntax texts_ok oevs
+                               | None => ([], [])
+                               end
+            | _ => ([], [])
+            end in
+          let f6 := f6_signature (cf_max_line cfg) phases in
+          mkV true (agree && mon_ok) model (dedup (conv_oracle cfg be obs expect ++ syn_viol))
+              (syn_kf ++ (if f6 then [bs "F6"] else []))
               ((match assoc "expect" args with Some e => [bs "focus-" ++ focus_of e] | None => [] end) ++ conv_tags cfg evs ++ (if trace_nondet cfg evs then [bs "nondet-param-order"] else [])
                ++ (if mon_ok then [] else [bs "MODEL-TRACE-REJECTED-BY-MONITOR"]))
       | _, _, _ => bad_case
